@@ -180,6 +180,46 @@ func isSeqLike(k Kind) bool {
 	return false
 }
 
+// singleSeesRTrim: does some Single receive, through parsers that hand their operand's node on
+// unchanged (alternatives, references, memoization, the trimming parsers, Optional, SuppressError,
+// ReturnSingle sequences), the node of a RightTrim whose own operand can hand on a sequence node?
+// RightTrim moves the end of that sequence node only; Single then returns its one child, which
+// still ends before the whitespace. The reference semantics (Single keeps its operand's ends)
+// does not describe that combination.
+func singleSeesRTrim(g *Grammar) bool {
+	var reach func(e *Expr, pred func(*Expr) bool, seen map[int]bool) bool
+	reach = func(e *Expr, pred func(*Expr) bool, seen map[int]bool) bool {
+		if pred(e) {
+			return true
+		}
+		switch {
+		case e.K == KRef:
+			if seen[e.NT] {
+				return false
+			}
+			seen[e.NT] = true
+			return reach(g.Rules[e.NT], pred, seen)
+		case e.K == KAny || e.K == KChoice || e.K == KOpt || e.K == KSuppress || e.K == KLTrim || e.K == KRTrim || e.K == KSingle || (isSeqLike(e.K) && e.RS):
+			for _, k := range e.Kids {
+				if reach(k, pred, seen) {
+					return true
+				}
+			}
+		}
+		return false
+	}
+	seqNode := func(e *Expr) bool { return isSeqLike(e.K) }
+	trimmedSeq := func(e *Expr) bool {
+		return e.K == KRTrim && reach(e.Kids[0], seqNode, map[int]bool{})
+	}
+	for _, e := range g.exprs() {
+		if e.K == KSingle && reach(e.Kids[0], trimmedSeq, map[int]bool{}) {
+			return true
+		}
+	}
+	return false
+}
+
 // nullableRules: may a rule match the empty string (conservative least fixpoint that
 // ignores the non-monotone side conditions; over-approximation is what the repairs need).
 func nullableRules(g *Grammar) []bool {
